@@ -27,6 +27,12 @@ type limitGuard struct {
 // limitOf: if e denotes a RuleConfiguration limit field (directly, or through a carrier field), return its name.
 func limitOf(info *types.Info, e ast.Expr, ruleCfg *types.Named, carriers map[*types.Var]string) string {
 	e = stripConv(info, e)
+	if id, isId := stripParens(e).(*ast.Ident); isId {
+		// a local that holds a limit (c14ScanFunc enters such locals in its copy of the carrier table)
+		if v, ok := info.ObjectOf(id).(*types.Var); ok && !v.IsField() {
+			return carriers[v]
+		}
+	}
 	fld := fieldOf(info, e)
 	if fld == nil {
 		return ""
@@ -154,6 +160,40 @@ func c14ScanFunc(r *core.Run, a *analysis, p *core.Program, pkg *packages.Packag
 	type frame struct {
 		cond ast.Expr
 		body []ast.Stmt
+	}
+	// locals defined once from a limit (`maxSize := cfg.MaxDocumentSizeBytes`) stand for that limit
+	{
+		local := map[*types.Var]string{}
+		ast.Inspect(f.Decl.Body, func(n ast.Node) bool {
+			as, ok := n.(*ast.AssignStmt)
+			if !ok || as.Tok != token.DEFINE || len(as.Lhs) != len(as.Rhs) {
+				return true
+			}
+			for i, l := range as.Lhs {
+				id, ok := l.(*ast.Ident)
+				if !ok {
+					continue
+				}
+				v, ok := info.Defs[id].(*types.Var)
+				if !ok {
+					continue
+				}
+				if lim := limitOf(info, as.Rhs[i], ruleCfg, carriers); lim != "" && singleInit(info, f, v) != nil {
+					local[v] = lim
+				}
+			}
+			return true
+		})
+		if len(local) > 0 {
+			cp := make(map[*types.Var]string, len(carriers)+len(local))
+			for k, v := range carriers {
+				cp[k] = v
+			}
+			for k, v := range local {
+				cp[k] = v
+			}
+			carriers = cp
+		}
 	}
 	var walk func(n ast.Node, encl *frame)
 	visitCond := func(cond ast.Expr, body []ast.Stmt) {
@@ -392,6 +432,33 @@ func checkC14Bytes(r *core.Run, p *core.Program, a *analysis) {
 				if kind == "io.Reader.Read" && constMarked > 0 {
 					r.Pass("C14.byte-accounting", key, call.Pos(), "count discarded but a constant count is marked (exactness of that read is C28's concern)")
 					return true
+				}
+				// or the read sits in an unexported helper and every caller of the helper marks a constant count
+				if kind == "io.Reader.Read" && !f.Obj.Exported() {
+					nCallers, allMark := 0, true
+					for _, g := range funcsOf(pkg) {
+						calls, marks := false, false
+						inspectCalls(info, g.Decl.Body, func(c2 *ast.CallExpr, cal2 *types.Func) {
+							if cal2 == f.Obj {
+								calls = true
+							}
+							if cal2 == mark && len(c2.Args) == 1 {
+								if _, ok := constInt(info, c2.Args[0]); ok {
+									marks = true
+								}
+							}
+						})
+						if calls {
+							nCallers++
+							if !marks {
+								allMark = false
+							}
+						}
+					}
+					if nCallers > 0 && allMark {
+						r.Pass("C14.byte-accounting", key, call.Pos(), "count discarded in a helper; every caller marks a constant count")
+						return true
+					}
 				}
 				r.Fail("C14.byte-accounting", key, call.Pos(), "the number of bytes consumed by "+kind+" is discarded: these document bytes are not counted towards MaxDocumentSizeBytes")
 				return true
